@@ -299,6 +299,24 @@ func NewWorld(cfg Config, oracles []Oracle, logOn bool) (*World, error) {
 		if ch != "minter" {
 			es.LastOutgoingBatchTxNonce = cfg.BatchNonceStart
 		}
+		if cfg.GenesisOutgoing && ch != "minter" {
+			// two batches that were pending when the genesis was written (each takes a sequence number at import)
+			var n uint64
+			for _, t := range cfg.Tokens {
+				if t.Chain != ch || n >= 2 {
+					continue
+				}
+				n++
+				b := &mhub2types.BatchTx{BatchNonce: cfg.BatchNonceStart + n, Timeout: 1 << 40, ExternalTokenId: t.ExtID,
+					Transactions: []*mhub2types.SendToExternal{{Id: n, Sender: TempAddr().String(), ExternalRecipient: "0x00000000000000000000000000000000000000c1", ChainId: ch,
+						Token: mhub2types.ExternalToken{TokenId: t.ID, ExternalTokenId: t.ExtID, Amount: sdk.NewInt(1000)}, Fee: mhub2types.ExternalToken{TokenId: t.ID, ExternalTokenId: t.ExtID, Amount: sdk.NewInt(int64(n))},
+						ValCommission: mhub2types.ExternalToken{TokenId: t.ID, ExternalTokenId: t.ExtID, Amount: sdk.ZeroInt()}, TxHash: fmt.Sprintf("genesis-%d", n)}}}
+				if any, err := mhub2types.PackOutgoingTx(b); err == nil {
+					es.OutgoingTxs = append(es.OutgoingTxs, any)
+				}
+			}
+			es.LastOutgoingBatchTxNonce = cfg.BatchNonceStart + n
+		}
 		for vi, v := range w.Vals {
 			if cfg.Keys[vi][ci] {
 				es.DelegateKeys = append(es.DelegateKeys, &mhub2types.MsgDelegateKeys{ValidatorAddress: v.Oper.ValAddr().String(),
